@@ -48,6 +48,33 @@ func init() {
 			for _, op := range bigSysexOps(r, tier) {
 				emit(Case{Op: op, Tags: []string{"big-sysex"}, NonTrivial: true})
 			}
+			// sysex episodes: overflowing / fitting / empty sysex, each ended by F7, by another F0 or by a status byte,
+			// several in a row (what one episode leaves behind must not leak into the next)
+			nep := 300
+			if tier == "thorough" {
+				nep = 20000
+			}
+			for i := 0; i < nep; i++ {
+				buf := r.Pick(3, 4, 5, 8, 16)
+				var b []byte
+				for e := r.Range(2, 5); e > 0; e-- {
+					b = append(b, 0xF0)
+					for k := r.Pick(0, 1, buf-3, buf-2, buf-1, buf, buf+1, buf+5); k > 0; k-- {
+						b = append(b, byte(r.Intn(128)))
+					}
+					switch r.Intn(5) {
+					case 0, 1:
+						b = append(b, 0xF7)
+					case 2: // interrupted by the next F0
+					case 3:
+						b = append(b, byte(r.Pick(0x90, 0xC0, 0xF1, 0xF2, 0xF6, 0xF4)), byte(r.Intn(128)))
+					default:
+						b = append(b, rtBytes[r.Intn(len(rtBytes))])
+					}
+				}
+				b = append(b, 0xF7, 0x90, 0x3C, 0x64)
+				emit(Case{Op: liveOp(r.Pick(7, 7, 1, 5), buf, randomChunks(r, b)), Tags: []string{"sysex-episodes"}, NonTrivial: true})
+			}
 			for i := 0; i < nrand; i++ {
 				b := genGarbage(r, r.Range(1, 60))
 				buf := r.Pick(0, 1, 2, 3, 4, 8, 16)
